@@ -321,8 +321,8 @@ M('c08-child-mode-lookup', 'C08', 'core.py',
   "        MODE: pmap[MODE],\n        MIN_MODE: None,",
   "children no longer inherit argument mode")
 M('c08-norestore', ['C08', 'C02', 'C03'], 'core.py',
-  "    result = scope[glom](target, arg, scope)\n    scope[MIN_MODE] = mode\n    return result",
-  "    result = scope[glom](target, arg, scope)\n    return result",
+  "        result = scope[glom](target, arg, scope)\n    finally:\n        # also when the argument fails: the frame may live on (e.g. an entry dropped by '*')\n        scope[MIN_MODE] = mode\n",
+  "        result = scope[glom](target, arg, scope)\n    finally:\n        pass\n",
   "argument mode is never restored")
 M('c08-fill-noset', 'C08', 'core.py',
   "    if type(spec) in (list, tuple, set, frozenset):\n        result = [recurse(val) for val in spec]",
@@ -821,3 +821,8 @@ M('c13-revert-ordered-known-types', ['C13'], 'core.py',
   "        known_types = list(OrderedDict.fromkeys(\n            sum([list(m.keys()) for m in self._op_type_map.values()], [])))",
   "        known_types = set(sum([list(m.keys()) for m in self._op_type_map.values()], []))",
   "revert of the repair: known types are inserted into the type tree in set (address) order")
+
+M('c08-revert-argmode-finally', ['C08'], 'core.py',
+  "    try:\n        result = scope[glom](target, arg, scope)\n    finally:\n        # also when the argument fails: the frame may live on (e.g. an entry dropped by '*')\n        scope[MIN_MODE] = mode\n    return result",
+  "    result = scope[glom](target, arg, scope)\n    scope[MIN_MODE] = mode\n    return result",
+  "revert of the repair: argument mode stays installed when the argument raises")
